@@ -816,3 +816,40 @@ func callFact(fa Fact, name string) (*ssa.Call, bool, bool) {
 	}
 	return c, truth, true
 }
+
+// feasiblePath rejects paths that take contradictory decisions on two evaluations of the same predicate call (same
+// callee, same arguments): `isNotExist(err)` evaluated twice in one condition cannot differ.
+func feasiblePath(path []Fact) bool {
+	type dec struct {
+		c     *ssa.Call
+		truth bool
+	}
+	var ds []dec
+	for _, fa := range path {
+		v, truth := normCond(fa.Cond, fa.Truth)
+		if c, ok := v.(*ssa.Call); ok {
+			ds = append(ds, dec{c, truth})
+		}
+	}
+	for i := 0; i < len(ds); i++ {
+		for j := i + 1; j < len(ds); j++ {
+			a, b := ds[i].c, ds[j].c
+			if a == b || ds[i].truth == ds[j].truth {
+				continue
+			}
+			if calleeFunc(a) == nil || calleeFunc(a) != calleeFunc(b) || len(a.Call.Args) != len(b.Call.Args) {
+				continue
+			}
+			same := true
+			for k := range a.Call.Args {
+				if !sameValue(a.Call.Args[k], b.Call.Args[k]) {
+					same = false
+				}
+			}
+			if same {
+				return false
+			}
+		}
+	}
+	return true
+}
